@@ -101,6 +101,15 @@ def build(backend):
                 cases.append({"form": f"{form}:{pn}", "query": q, "names": names, "types": types, "raises": False})
                 if pr:
                     cases[-1]["prior"] = pr
+    # event-level rows whose columns are computed in DIFFERENT blocks: a First()-derived scalar (set inside the loop and the
+    # first-flag test), an aggregate (set after its loop), a vector (pushed inside its loop), a constant - every order
+    other = f"e.{a.secondary}('B')"
+    ev_cols = [(f"{coll}.First().eta()", {"double"}), (f"{coll}.Count()", {"int"}), (f"{coll}.Select(lambda j: j.pt())", {"std::vector<double>"}),
+               (f"{other}.First().pt()", {"double"}), (f"{coll}.Select(lambda j: j.nTrk()).Sum()", {"int"}), ("7", {"int"})]
+    for (e1, t1), (e2, t2) in itertools.permutations(ev_cols, 2):
+        add("ev-mixed-scopes-dict", f"ds.Select(lambda e: {{'a': {e1}, 'b': {e2}}})", ["a", "b"], [t1, t2])
+    for (e1, t1), (e2, t2), (e3, t3) in itertools.permutations(ev_cols[:4], 3):
+        add("ev-mixed-scopes-tuple3", f"ds.Select(lambda e: ({e1}, {e2}, {e3}))", None, [t1, t2, t3])
     add("selectmany-scalar", f"ds.SelectMany(lambda e: {coll}.Select(lambda j: j.q()))", None, [{"float"}])
     return cases
 
